@@ -210,6 +210,15 @@ def _drop_pass(lst):
 
 
 class Normalise(ast.NodeTransformer):
+    def visit_BinOp(self, n):
+        self.generic_visit(n)
+        # N17: arithmetic on two integer literals (left behind by a folded option): `1 - 1` -> `0`
+        if isinstance(n.op, (ast.Add, ast.Sub, ast.Mult)) and isinstance(n.left, ast.Constant) and isinstance(n.right, ast.Constant) \
+                and type(n.left.value) is int and type(n.right.value) is int:
+            v = {ast.Add: n.left.value + n.right.value, ast.Sub: n.left.value - n.right.value, ast.Mult: n.left.value * n.right.value}[type(n.op)]
+            return ast.copy_location(ast.Constant(value=v) if v >= 0 else ast.UnaryOp(op=ast.USub(), operand=ast.Constant(value=-v)), n)
+        return n
+
     def visit_UnaryOp(self, n):
         self.generic_visit(n)
         if isinstance(n.op, ast.Not) and isinstance(n.operand, ast.Constant) and isinstance(n.operand.value, bool):
@@ -1055,7 +1064,7 @@ def _module_signatures(mod):
         if isinstance(st, (ast.FunctionDef, ast.AsyncFunctionDef)):
             a = st.args
             if not st.decorator_list or all(_deco_keeps_signature(d) for d in st.decorator_list):
-                funcs[st.name] = ([x.arg for x in a.posonlyargs + a.args], bool(a.vararg), len(a.posonlyargs))
+                funcs[st.name] = ([x.arg for x in a.posonlyargs + a.args], bool(a.vararg), len(a.posonlyargs), _literal_defaults(a))
         elif isinstance(st, ast.ClassDef):
             ms = {}
             for m in st.body:
@@ -1065,9 +1074,17 @@ def _module_signatures(mod):
                     if any(d not in ("staticmethod", "classmethod") and not _deco_keeps_signature(dn) for d, dn in zip(deco, m.decorator_list)):
                         continue
                     params = [x.arg for x in a.posonlyargs + a.args]
-                    ms[m.name] = (params if "staticmethod" in deco else params[1:], bool(a.vararg), len(a.posonlyargs), "staticmethod" in deco or "classmethod" in deco)
+                    ms[m.name] = (params if "staticmethod" in deco else params[1:], bool(a.vararg), len(a.posonlyargs), "staticmethod" in deco or "classmethod" in deco, _literal_defaults(a))
             classes[st.name] = ms
     return funcs, classes
+
+
+def _literal_defaults(a) -> tuple:
+    """((parameter, text of its literal default), ...) - hashable, for the signature tables"""
+    pos = a.posonlyargs + a.args
+    d = dict(zip([x.arg for x in pos[len(pos) - len(a.defaults):]], a.defaults))
+    d.update({x.arg: v for x, v in zip(a.kwonlyargs, a.kw_defaults) if v is not None})
+    return tuple(sorted((k, ast.unparse(v)) for k, v in d.items() if isinstance(v, ast.Constant) or (isinstance(v, ast.Tuple) and not v.elts)))
 
 
 def _deco_keeps_signature(d) -> bool:
@@ -1115,15 +1132,24 @@ def _positional_calls(tree, extern=None):
                 return c
             f = c.func
             sig = None
+            dfl = ()
             if isinstance(f, ast.Name) and f.id in funcs and f.id not in bound_elsewhere:
                 sig = funcs[f.id][:2]
+                dfl = funcs[f.id][3] if len(funcs[f.id]) > 3 else ()
             elif isinstance(f, ast.Name) and f.id in classes and f.id not in bound_elsewhere and "__init__" in classes[f.id]:
                 sig = classes[f.id]["__init__"][:2]
+                dfl = classes[f.id]["__init__"][4] if len(classes[f.id]["__init__"]) > 4 else ()
             elif isinstance(f, ast.Attribute) and isinstance(f.value, ast.Name):
                 if f.value.id in ("self", "cls") and self.cls and f.attr in classes.get(self.cls, {}):
                     sig = classes[self.cls][f.attr][:2]
+                    dfl = classes[self.cls][f.attr][4] if len(classes[self.cls][f.attr]) > 4 else ()
                 elif f.value.id in classes and f.attr in classes[f.value.id] and classes[f.value.id][f.attr][3]:
                     sig = classes[f.value.id][f.attr][:2]
+                    dfl = classes[f.value.id][f.attr][4] if len(classes[f.value.id][f.attr]) > 4 else ()
+            if sig is not None and dfl:
+                # a keyword that passes the callee's own literal default says nothing: f(x, opt=None) is f(x)
+                dd = dict(dfl)
+                c.keywords = [k for k in c.keywords if not (k.arg in dd and isinstance(k.value, (ast.Constant, ast.Tuple)) and ast.unparse(k.value) == dd[k.arg])]
             if sig is None or sig[1]:
                 return c
             params = sig[0]
@@ -1374,8 +1400,164 @@ def _drop_empty_splats(tree):
     return tree
 
 
+# N28: a private record type is the tuple it replaced -------------------------------------------------------------------------------
+def _records_as_tuples(tree):
+    """N28: `class _Rec(NamedTuple): a: T; b: U` (or `namedtuple('_Rec', 'a b')`) used as the result of a function and read by field name is the
+    anonymous tuple it usually replaces:   return _Rec(a=x, b=y) -> return (x, y);   r = f(..) ... r.a ... r.b -> r_a, r_b = f(..) ... r_a ... r_b
+    (when `r` is bound once to the result of a record-returning function of the module and only ever read through its fields; otherwise
+    `r.a` -> `r[0]`).  `_Rec._make(e)` -> `e`."""
+    if not isinstance(tree, ast.Module):
+        return tree
+    recs = {}
+    for st in tree.body:
+        if isinstance(st, ast.ClassDef) and any((isinstance(b, ast.Name) and b.id == "NamedTuple") or (isinstance(b, ast.Attribute) and b.attr == "NamedTuple") for b in st.bases):
+            fields, defaults = [], {}
+            for x in st.body:
+                if isinstance(x, ast.AnnAssign) and isinstance(x.target, ast.Name):
+                    fields.append(x.target.id)
+                    if x.value is not None:
+                        defaults[x.target.id] = x.value
+            if fields:
+                recs[st.name] = (fields, defaults)
+        elif isinstance(st, ast.Assign) and len(st.targets) == 1 and isinstance(st.targets[0], ast.Name) and isinstance(st.value, ast.Call) \
+                and ((isinstance(st.value.func, ast.Name) and st.value.func.id == "namedtuple") or (isinstance(st.value.func, ast.Attribute) and st.value.func.attr == "namedtuple")) \
+                and len(st.value.args) >= 2:
+            f = st.value.args[1]
+            names = None
+            if isinstance(f, ast.Constant) and isinstance(f.value, str):
+                names = f.value.replace(",", " ").split()
+            elif isinstance(f, (ast.List, ast.Tuple)) and all(isinstance(e, ast.Constant) and isinstance(e.value, str) for e in f.elts):
+                names = [e.value for e in f.elts]
+            if names:
+                recs[st.targets[0].id] = (names, {})
+    if not recs:
+        return tree
+
+    class C(ast.NodeTransformer):
+        def visit_Call(self, c):
+            self.generic_visit(c)
+            f = c.func
+            if isinstance(f, ast.Name) and f.id in recs and not any(isinstance(a, ast.Starred) for a in c.args) and not any(k.arg is None for k in c.keywords):
+                fields, defaults = recs[f.id]
+                vals = {fields[i]: a for i, a in enumerate(c.args) if i < len(fields)}
+                vals.update({k.arg: k.value for k in c.keywords})
+                if all(x in vals or x in defaults for x in fields) and len(c.args) <= len(fields):
+                    t = ast.Tuple(elts=[vals.get(x, copy.deepcopy(defaults.get(x))) for x in fields], ctx=ast.Load())
+                    t._record = f.id
+                    return ast.copy_location(t, c)
+            if isinstance(f, ast.Attribute) and f.attr == "_make" and isinstance(f.value, ast.Name) and f.value.id in recs and len(c.args) == 1:
+                return c.args[0]
+            return c
+    tree = C().visit(tree)
+    # functions all of whose returns are such tuples
+    rec_funcs = {}
+    for fn in [f for f in ast.walk(tree) if isinstance(f, (ast.FunctionDef, ast.AsyncFunctionDef))]:
+        rets, stack = [], list(fn.body)
+        while stack:
+            x = stack.pop()
+            if isinstance(x, (ast.FunctionDef, ast.AsyncFunctionDef, ast.Lambda, ast.ClassDef)):
+                continue
+            if isinstance(x, ast.Return) and x.value is not None:
+                rets.append(x)
+            stack.extend(ast.iter_child_nodes(x))
+        kinds = {getattr(r.value, "_record", None) for r in rets}
+        if rets and len(kinds) == 1 and None not in kinds:
+            rec_funcs[fn.name] = kinds.pop()
+    for fn in [f for f in ast.walk(tree) if isinstance(f, (ast.FunctionDef, ast.AsyncFunctionDef))]:
+        stores = {}
+        for n in ast.walk(fn):
+            if isinstance(n, ast.Name) and isinstance(n.ctx, (ast.Store, ast.Del)):
+                stores[n.id] = stores.get(n.id, 0) + 1
+        cands = {}
+        for st in ast.walk(fn):
+            if isinstance(st, ast.Assign) and len(st.targets) == 1 and isinstance(st.targets[0], ast.Name) and stores.get(st.targets[0].id) == 1:
+                v = st.value
+                rec = getattr(v, "_record", None)
+                if rec is None and isinstance(v, ast.Call):
+                    fname = v.func.id if isinstance(v.func, ast.Name) else (v.func.attr if isinstance(v.func, ast.Attribute) else None)
+                    rec = rec_funcs.get(fname)
+                if rec:
+                    cands[st.targets[0].id] = (st, rec)
+        if not cands:
+            continue
+        par = {}
+        for n in ast.walk(fn):
+            for ch in ast.iter_child_nodes(n):
+                par[ch] = n
+        loads = {}
+        for n in ast.walk(fn):
+            if isinstance(n, ast.Name) and isinstance(n.ctx, ast.Load) and n.id in cands:
+                p_ = par.get(n)
+                loads.setdefault(n.id, []).append(p_.attr if isinstance(p_, ast.Attribute) and p_.value is n and p_.attr in recs[cands[n.id][1]][0] else None)
+        for v, (st, rec) in cands.items():
+            fields = recs[rec][0]
+            uses = loads.get(v, [])
+            only_fields = bool(uses) and all(u is not None for u in uses)
+
+            class A(ast.NodeTransformer):
+                def visit_Attribute(self, n):
+                    self.generic_visit(n)
+                    if isinstance(n.value, ast.Name) and n.value.id == v and n.attr in fields and isinstance(n.ctx, ast.Load):
+                        if only_fields:
+                            return ast.copy_location(ast.Name(id=f"{v}_{n.attr}", ctx=ast.Load()), n)
+                        return ast.copy_location(ast.Subscript(value=n.value, slice=ast.Constant(value=fields.index(n.attr)), ctx=ast.Load()), n)
+                    return n
+            A().visit(fn)
+            if only_fields:
+                st.targets = [ast.Tuple(elts=[ast.Name(id=f"{v}_{x}", ctx=ast.Store()) for x in fields], ctx=ast.Store())]
+    return tree
+
+
+# N30: a field that is only ever a literal is that literal -----------------------------------------------------------------------------
+def _instance_constants(tree):
+    """N30: `self.x = <literal>` as an unconditional statement of `__init__`, `x` stored nowhere else in the module (on any receiver) and never deleted:
+    every `self.x` read in the class's other methods is the literal.  (Typically what is left of `self._opt = opt` after an opt-in option was folded to
+    its default.)  Only None / bool / int / str literals and empty tuples."""
+    if not isinstance(tree, ast.Module):
+        return tree
+    stores_anywhere = {}
+    for n in ast.walk(tree):
+        if isinstance(n, ast.Attribute) and isinstance(n.ctx, (ast.Store, ast.Del)):
+            stores_anywhere[n.attr] = stores_anywhere.get(n.attr, 0) + 1
+        elif isinstance(n, ast.Call) and isinstance(n.func, ast.Name) and n.func.id in ("setattr", "delattr") and len(n.args) >= 2:
+            if isinstance(n.args[1], ast.Constant) and isinstance(n.args[1].value, str):
+                stores_anywhere[n.args[1].value] = stores_anywhere.get(n.args[1].value, 0) + 2
+            else:
+                return tree   # dynamic attribute names: leave everything alone
+    for cls in [c for c in tree.body if isinstance(c, ast.ClassDef)]:
+        init = next((m for m in cls.body if isinstance(m, ast.FunctionDef) and m.name == "__init__"), None)
+        if init is None or any(isinstance(b, ast.Name) and b.id not in ("object",) for b in cls.bases) and False:
+            continue
+        if init is None:
+            continue
+        consts = {}
+        for st in init.body:
+            tg0 = st.targets[0] if isinstance(st, ast.Assign) and len(st.targets) == 1 else (st.target if isinstance(st, ast.AnnAssign) and st.value is not None else None)
+            if isinstance(tg0, ast.Attribute) and isinstance(tg0.value, ast.Name) and tg0.value.id == "self" and stores_anywhere.get(tg0.attr) == 1:
+                v = st.value
+                if (isinstance(v, ast.Constant) and (v.value is None or isinstance(v.value, (bool, int, str)))) or (isinstance(v, ast.Tuple) and not v.elts):
+                    consts[tg0.attr] = v
+        # class-level declarations / slots do not count as stores; a subclass elsewhere could assign the field: only private names are folded
+        consts = {k: v for k, v in consts.items() if k.startswith("_")}
+        if not consts:
+            continue
+
+        class S(ast.NodeTransformer):
+            def visit_Attribute(self, n):
+                self.generic_visit(n)
+                if isinstance(n.ctx, ast.Load) and isinstance(n.value, ast.Name) and n.value.id == "self" and n.attr in consts:
+                    return ast.copy_location(copy.deepcopy(consts[n.attr]), n)
+                return n
+        for m in cls.body:
+            if isinstance(m, (ast.FunctionDef, ast.AsyncFunctionDef)) and m is not init:
+                S().visit(m)
+    return tree
+
+
 def normalise(tree: ast.AST, extern=None) -> ast.AST:
     tree = _canonical_imports(tree)
+    tree = _instance_constants(tree)
+    tree = _records_as_tuples(tree)
     tree = _inline_attribute_aliases(tree)
     tree = _Interpolation().visit(tree)
     tree = _positional_calls(tree, extern)
